@@ -89,8 +89,11 @@ def sweep_main():
             out["samples"].append({k: repr(v)[:200] for k, v in model.items()})
         if "verdict" in r:
             out["evaluations"] += 1
-            if r["verdict"] and len(out["failures"]) < 5:
-                out["failures"].append({"name": f"{c.name} :: differs from the independent decoding", "model": model,
+            if r["verdict"] and (len(out["failures"]) < 5 or (
+                    r.get("tag") is None and all(f["name"].endswith(str(r.get("tag"))) or "skipped-one-pass" in f["name"]
+                                                 for f in out["failures"]) and len(out["failures"]) < 40)):
+                out["failures"].append({"name": f"{c.name} :: " + (r.get("tag") or "differs from the independent decoding"),
+                                        "model": model,
                                         "observed": repr(r.get("result"))[:300], "expected": repr(r.get("expected"))[:300]})
             continue
         if r.get("exc") is not None:
